@@ -105,8 +105,8 @@ def at_loop_head(self, st, fr):
         first[key] = dict(fr.locals)
         st.meta["lh_first"] = first
         return
-    if st.meta.get("stop_at") is not None or prev_locals is None:
-        return      # inside a probe / loop-invariant mode
+    if st.meta.get("in_probe") or prev_locals is None:
+        return      # inside a probe
     # a cursor that is still the unmaterialised link of the previous cursor: decide it here, so that the fresh-successor case is
     # recognised at this head (iterators force their cursor inside `next`, not at the loop head)
     for l, v in list(fr.locals.items()):
@@ -154,6 +154,7 @@ def probe(self, st, fr, l, path, kind, k, fld, with_succ=True):
     f2.locals[l] = self.update(sc, f2.locals[l], path, idv if kind == "id" else some(idv))
     sc.meta["stop_at"] = (f2.uid, f2.bb)
     sc.meta["stop_armed"] = False
+    sc.meta["in_probe"] = True
     nev = len(sc.events)
     depth = len(sc.frames)
     try:
@@ -301,6 +302,8 @@ def summarise(self, st, fr, key, l, path, kind, g, fld):
                 s.set_h0_link(k, "parent", pg)
         elif fld == "parent":
             s.anc[(k, g)] = True
+        elif fld in ("first_child", "last_child"):
+            s.anc[(g, k)] = True          # reached by walking down from g
 
     opts = []
     named = [k for k, kr in st.nodes.items() if k != g and k not in before and not kr.fresh and kr.live0]
@@ -358,6 +361,8 @@ def summarise(self, st, fr, key, l, path, kind, g, fld):
                 s.set_h0_link(e, "parent", pg)
             if fld == "parent":
                 s.anc[(e, g)] = True
+            if fld in ("first_child", "last_child"):
+                s.anc[(g, e)] = True
             _set_leaf(self, s, luid, l, path, s.id_of(e))
             s.meta["reach"] = tuple(s.meta.get("reach", ())) + ((fld, start, e), (fld, g, e))
         opts.append(("walk %s from %s to a fresh chain end" % (fld, g), fresh_end))
@@ -373,6 +378,7 @@ def _effect_only(self, st, fr, l, path, kind, k):
     f2.locals[l] = self.update(sc, f2.locals[l], path, idv if kind == "id" else some(idv))
     sc.meta["stop_at"] = (f2.uid, f2.bb)
     sc.meta["stop_armed"] = False
+    sc.meta["in_probe"] = True
     nev = len(sc.events)
     depth = len(sc.frames)
     heads = self.loop_heads(f2.fnkey)
